@@ -1,4 +1,5 @@
 import Gv.Model.Fmt.Common
+import Gv.Model.Fmt.Utf8
 /-!
 Model of `io/stockholm/{stockholm_lexer,stockholm_parser,writer}.go` as the code is.
 
@@ -129,6 +130,11 @@ def parse (stopsAtEof rejectsEmpty : Bool) (o : POpts) (bs : Seq) : Outcome Aln 
       | .hang => .hang
     | _ => .error
   | _ => .error
+
+/-- `Parse()` on the raw input, ALL byte strings; `none` = no claim (the input holds U+0131 / U+017F, which
+`strings.ToUpper` maps to `I` / `S` in the keyword test) -/
+def parseBytes (stopsAtEof rejectsEmpty : Bool) (o : POpts) (bs : Seq) : Option (Outcome Aln) :=
+  if Utf8.hasFoldRune bs then none else some (parse stopsAtEof rejectsEmpty o (Utf8.norm bs))
 
 /-! ### writer -/
 
